@@ -60,6 +60,39 @@ def explore(res, rng, n):
                                              'api': fname, 'input': [lo, hi, 3 * st, nn], 'impl_output': [s0, s3]})
             except ValueError:
                 pass
+        # ---- glue: one float array handed to all three functions twice, numpy float scalars, Python int n
+        if i % 4 == 0:
+            import numpy as np
+            arr = np.array([lo, hi], dtype=float)
+            res.stat('shared_ndarray_and_numpy_scalars')
+            for rnd in (0, 1):
+                for kind, fname in FNS.items():
+                    f = getattr(lcc, fname)
+                    res.evaluations += 1
+                    try:
+                        want = float(f([lo, hi], st, nn))
+                    except ValueError:
+                        continue
+                    variants = {'ndarray': lambda: f(arr, st, nn), 'numpy-float-scalars': lambda: f([lo, hi], np.float64(st), np.float64(nn))}
+                    if nn == int(nn):
+                        variants['int-n'] = lambda: f([lo, hi], st, int(nn))
+                    for vn, call in variants.items():
+                        try:
+                            got = float(call())
+                        except Exception as e:  # noqa
+                            res.failures.append({'signature': f'C09:{fname}:{vn}:raises:{lo}:{hi}:{st}:{nn}', 'api': fname,
+                                                 'clause': f'admissible input rejected when passed as {vn}: {type(e).__name__} {str(e)[:80]}',
+                                                 'input': [lo, hi, st, nn]})
+                            continue
+                        if not gen.close(got, want, 1e-12):
+                            res.failures.append({'signature': f'C09:{fname}:{vn}:value:{lo}:{hi}:{st}:{nn}', 'api': fname,
+                                                 'clause': f'result depends on how the arguments are passed ({vn}, call round {rnd}): the defining relation is violated',
+                                                 'input': [lo, hi, st, nn], 'impl_output': [got, want]})
+                    if arr.tolist() != [lo, hi]:
+                        res.failures.append({'signature': f'C09:{fname}:ndarray-modified:{lo}:{hi}:{st}:{nn}', 'api': fname,
+                                             'clause': 'the stress-range array of the caller was modified', 'input': [lo, hi, st, nn],
+                                             'impl_output': arr.tolist()})
+                        arr = np.array([lo, hi], dtype=float)
         # ordering Gerber <= Goodman <= Soderberg for sy <= su (non-negative mean stress)
         if lo + hi >= 0:
             sy = st
